@@ -1773,6 +1773,11 @@ class Ev:
                     body = strip(some_arm["body"])
                     if body.get("k") == "local" and body["id"] == some_arm["pat"]["pats"][0]["id"]:
                         return ["mcall", "core::option::Option::<T>::unwrap_or", [sc, self.sym(none_arm["body"], env, gen)]]
+                    # Some(x) => f(x), None => d   ==   scrut.map(|x| f(x)).unwrap_or(d)
+                    env2 = dict(env)
+                    env2[some_arm["pat"]["pats"][0]["id"]] = ["lp", 0]
+                    mapped = ["mcall", "core::option::Option::<T>::map", [sc, ["lam", 1, self.sym(some_arm["body"], env2, gen)]]]
+                    return ["mcall", "core::option::Option::<T>::unwrap_or", [mapped, self.sym(none_arm["body"], env, gen)]]
             arms = []
             for a in e["arms"]:
                 env2 = dict(env)
